@@ -4,6 +4,7 @@ import (
 	"fmt"
 	"io"
 	"io/ioutil"
+	"regexp"
 	"strings"
 	"sync"
 	"unicode"
@@ -119,6 +120,7 @@ type lexer struct {
 	last   token // The last emitted token
 	parens int   // Number of open parenthesis
 	width  int   // Number of bytes consumed by the last call to next
+	tagPos int   // The position just after the last tag open delimiter
 
 	done     chan struct{} // Closed by stop when no more tokens will be read.
 	stopOnce sync.Once
@@ -189,7 +191,7 @@ func (l *lexer) tokenize() {
 func newLexer(input io.Reader) *lexer {
 	// TODO: lexer should use the reader.
 	i, _ := ioutil.ReadAll(input)
-	return &lexer{0, 0, 1, 0, string(i), make(chan token), nil, modeNormal, token{}, 0, 0, make(chan struct{}), sync.Once{}}
+	return &lexer{0, 0, 1, 0, string(i), make(chan token), nil, modeNormal, token{}, 0, 0, 0, make(chan struct{}), sync.Once{}}
 }
 
 func (l *lexer) next() (val string) {
@@ -568,6 +570,7 @@ func lexTagOpen(l *lexer) stateFn {
 		l.pos++
 	}
 	l.emit(tokenTagOpen)
+	l.tagPos = l.pos
 
 	return lexExpression
 }
@@ -576,11 +579,33 @@ func lexTagClose(l *lexer) stateFn {
 	if l.parens > 0 {
 		return l.errorf("unclosed parenthesis")
 	}
+	verbatim := strings.Trim(l.input[l.tagPos:l.pos], " \t\r\n") == "verbatim"
 	if l.peek() == delimTrimWhitespace {
 		l.pos++
 	}
 	l.pos += len(delimCloseTag)
 	l.emit(tokenTagClose)
+
+	if verbatim {
+		return lexVerbatim
+	}
+	return lexData
+}
+
+var endVerbatimMatcher = regexp.MustCompile(`\{%-?[ \t\r\n]*endverbatim[ \t\r\n]*-?%\}`)
+
+// lexVerbatim emits everything up to the endverbatim tag as one text token,
+// whatever it looks like: the body of a verbatim tag is not Stick source.
+func lexVerbatim(l *lexer) stateFn {
+	if loc := endVerbatimMatcher.FindStringIndex(l.input[l.pos:]); loc != nil {
+		l.pos += loc[0]
+	} else {
+		// Unclosed; the parser will report the missing endverbatim.
+		l.pos = len(l.input)
+	}
+	if l.pos > l.start {
+		l.emit(tokenText)
+	}
 
 	return lexData
 }
